@@ -325,6 +325,8 @@ def extract_unit(repo, unit_dir, out_path, variant=None):
     for it, segs, rel, fn_key, (a, b) in pieces:
         src, _ = load(rel)
         emit('// ---- extracted: %s %s from %s ----' % (it['kind'], it['name'], rel), {'kind': 'gen'})
+        if it.get('wrap'):
+            emit(it['wrap'] + ' {', {'kind': 'gen'})
         # walk segments, building lines and per-line origin
         cur = ''
         cur_org = None
@@ -355,6 +357,8 @@ def extract_unit(repo, unit_dir, out_path, variant=None):
                 if sg.kind == 'repo' and off is not None:
                     off += len(part) + 1
         flush()
+        if it.get('wrap'):
+            emit('}', {'kind': 'gen'})
         final_text = segs.text()
         d = list(difflib.unified_diff(src[a:b].split('\n'), final_text.split('\n'),
                                       '%s:%s %s (repository)' % (rel, it['kind'], it['name']),
